@@ -69,6 +69,13 @@ def run (guarded : Bool) : St → List Act → Option St
     | some s' => run guarded s' as
     | none => none
 
+/-- the sequential history a concurrent run amounts to: the writes in the order in which they took
+the lock (the type of the sequential packetiser's op list is `Ibb.SOp`; here only the chunks matter) -/
+def writesOf : List Act → List Bytes
+  | [] => []
+  | .write c :: as => c :: writesOf as
+  | _ :: as => writesOf as
+
 /-- the invariant of the guarded system -/
 def Inv (s : St) : Prop :=
   s.wire ++ s.buf = s.written ∧ ∀ t l, s.snap t = some l → s.lock = some t ∧ l = s.buf
